@@ -60,7 +60,9 @@ def gen_case(rng: random.Random) -> dict[str, Any]:
             # cancelled through the handle (always, for tasks that never end by themselves)
             script.append({"at": rng.randint(0, exit_at - 1) + 0.25, "op": "cancel", "h": s["h"]})
         if rng.random() < 0.3:
-            script.append({"at": rng.randint(0, exit_at - 1) + 0.25, "op": "wait", "h": s["h"]})
+            # one or several callers wait for the same task (at different moments, possibly all while it is running)
+            for k in range(rng.choice([1, 1, 2, 3])):
+                script.append({"at": rng.randint(0, exit_at - 1) + 0.25 + 0.05 * k, "op": "wait", "h": s["h"]})
     for t in range(exit_at):
         if rng.random() < 0.7:
             script.append({"at": t + 0.5, "op": "observe"})
